@@ -215,10 +215,11 @@ func init() {
 		ExpectLabels: []string{"compose-fails-iff-empty", "compose-values", "parts-values", "descent-values"},
 	})
 	register(&CheckDef{
-		ID:        "C09",
-		Level:     "model_checking",
-		Technique: "relational bounded symbolic execution of filter pairs on one symbolic container; selections compared by member position (observed through accessors), assertions decided by z3",
-		Jobs:      c09Jobs,
+		ID:         "C09",
+		SolverDiff: true,
+		Level:      "model_checking",
+		Technique:  "relational bounded symbolic execution of filter pairs on one symbolic container; selections compared by member position (observed through accessors), assertions decided by z3",
+		Jobs:       c09Jobs,
 		Bounds: func(tier string) map[string]interface{} {
 			return map[string]interface{}{"container": fmt.Sprintf("root array of 0..%d members or object over keys {a,b}; members of every kind, member objects with optional a, b; member arrays 0..1", tierN(tier, 2, 3)),
 				"expressions": "existence tests, comparisons (6 operators x literal/@/$ operands, both orders), regex; combined with && and || (pairs of atoms; pairs of nested expressions)",
